@@ -193,6 +193,13 @@ def gen_subset_string(rng, base, n) -> str:
         if ch in ESCAPABLE and rng.random() < 0.4:
             return '\\' + ch
         return ch
+    if rng.random() < 0.3:
+        # free text: any mixture of window characters, hyphens, backslashes, brackets and specials --
+        # mostly outside the grammar (lenient zone / errors); ties the parser model to the code there
+        # (only characters of the window, so that every set stays inside it)
+        alphabet = [chr(base + rng.randrange(n)) for _ in range(4)] + \
+            [c for c in list('--\\\\[]^+*{(') + ['s', 'd', 'a'] if base <= ord(c) < base + n]
+        return ''.join(rng.choice(alphabet) for _ in range(rng.randint(0, 7)))
     items = []
     for _ in range(rng.randint(0, 5)):
         a = base + rng.randrange(n)
@@ -221,9 +228,9 @@ def gen_canon_list(rng, base, n, density):
 def gen_case(rng, quick=True):
     hi = rng.random() < 0.15
     n = rng.choice([12, 16, 24, 40])
-    base = (MAXCP1 - n) if hi else rng.choice([0, 0, 40, 60, 97, 0x4E00])
-    if base == 40:
-        n = 24
+    base = (MAXCP1 - n) if hi else rng.choice([0, 0, 40, 40, 60, 97, 0x4E00])
+    if base == 40:     # 40..63: punctuation and digits; 40..127: also letters, [ \ ] ^ { | }
+        n = rng.choice([24, 88])
     if base == 97:
         n = min(n, 24)
     stringable = base in (97, 0x4E00)
@@ -279,6 +286,8 @@ CORPUS = [
     (0, 16, [2], [('upd', ([(4, 6), 5, (5, 8), 1], False)), ('dupd', ([7, 6, (0, 3)], False))]),
     (0, 16, [(0, 10)], [('ixorl', [(1, 5), (3, 7)])]),                                   # F13d
     (40, 24, [], [('upds', '0-9+-/'), ('dupds', '\\-1'), ('upds', '9-0'), ('upds', '(-*.-0'), ('upds', '-+'), ('dupds', '3-5-')]),
+    (40, 88, [], [('upds', '0-\\\\\\['), ('dupds', 'Z-\\\\'), ('upds', 'a-b--c'), ('upds', '\\a'), ('upds', '['),
+                  ('upds', 'a[b'), ('dupds', '\\[-\\]'), ('upds', 'P-\\'), ('upds', 'a-\\d'), ('upds', '^-a-')]),   # F13g, lenient zone
     (97, 24, [(97, 120)], [('ixorl', [(97, 100)]), ('iandl', [(100, 110), 99]), ('iorl', [98, (97, 99)]), ('isubl', [(105, 120), 104])]),
 ]
 
@@ -304,16 +313,21 @@ def compare(run: Run, cases: list) -> None:
         if base:
             st.count('high-window')
         for k, (m_repr, s_bits, s_canon, safe, okd) in enumerate(states):
-            merr = serr = False
-            while m_repr.startswith(('MERR ', 'SERR ')):
+            merr = serr = suns = False
+            while m_repr.startswith(('MERR ', 'SERR ', 'SUNS ')):
                 merr, serr = merr or m_repr.startswith('MERR '), serr or m_repr.startswith('SERR ')
+                suns = suns or m_repr.startswith('SUNS ')
                 m_repr = m_repr[5:]
+            if k and ops[k - 1][0] in ('upds', 'dupds'):
+                st.count('string:' + ('unspec(lenient zone)' if suns else 'grammar-error' if serr else 'grammar-ok'))
             if k < len(impl) and (merr or serr or impl[k][0].startswith('ERR:RegexError ')):
-                # character-subset string rejected by somebody: implementation, model, spec must agree
+                # character-subset string rejected by somebody: where the grammar speaks (ok / error) the
+                # implementation must follow it (theorems subset_string_accepted / _rejected are about the
+                # model); in the lenient zone only model = implementation is required
                 i_err = impl[k][0].startswith('ERR:RegexError ')
                 st.count('string-rejected' if i_err else 'string-accepted-spec-rejects')
                 prefix = line_of(base, n, init, ops[:k])
-                if i_err != serr:
+                if not suns and i_err != serr:
                     run.disagree(Disagreement(prefix, 'RegexError' if i_err else 'accepted', None,
                                               spec='RegexError' if serr else 'accepted',
                                               what='subset-string-validity', site='iterparse_character_subset'))
@@ -367,6 +381,11 @@ def correspond(run: Run) -> None:
     rng = run.rng
     n = run.scale(1500, 30000)
     cases = list(CORPUS) + [gen_case(rng, run.quick) for _ in range(n)]
+    # string family: character-subset texts only (grammar texts, errors and free text), window 40..127
+    for _ in range(run.scale(600, 12000)):
+        init = gen_canon_list(rng, 40, 88, rng.choice([0, 0.1])) if rng.random() < 0.5 else []
+        cases.append((40, 88, init, [(rng.choice(['upds', 'upds', 'dupds']), gen_subset_string(rng, 40, 88))
+                                     for _ in range(rng.randint(1, 6))]))
     run.stats.rule = ('operation sequences (1..14 quick / 1..25 thorough ops: add, discard, |=, -=, &=, ^=, update, '
                       'difference_update with int / range / subset / arbitrary iterable / character-subset string arguments) over windows of 12..40 code points at 0, 60 and just '
                       'below maxunicode, from canonical initial lists; after every op the codepoints list, '
@@ -759,12 +778,12 @@ def body(run: Run) -> int:
     run.stats.extra['tables'] = info
     run.trusted_base += ['translator harness/c13.py::translate_tables (prints live tables as Lean literals)',
                          'unicodedata of the running CPython as the category oracle']
-    run.assumptions += ['Python set/int semantics in the harness', 'string arguments of update() only over letters/CJK (no escapes): iterparse_character_subset escapes are not modelled']
-    props = ['EPV.Props.C13', 'EPV.Props.C13Tables']
+    run.assumptions += ['Python set/int semantics in the harness', 'character-subset texts outside the XSD group grammar (lenient zone) are tied to the model only, no specification']
+    props = ['EPV.Props.C13', 'EPV.Props.C13Str', 'EPV.Props.C13Tables']
     if not run.quick:
         run.stats.extra['all_versions'] = translate_all_versions(run)
         props.append('EPV.Props.ThoroughC13V')
-    run.prove(props, ['EPV.Spec.SetSpec'])
+    run.prove(props, ['EPV.Spec.SetSpec', 'EPV.Spec.CharGroupStrict', 'EPV.Model.CharSubsetParse'])
     for v, lo, hi in run.stats.extra.get('all_versions', {}).get('block_overlaps', []):
         known = v in ('2.1.8', '2.1.5', '2.1.2', '2.0.0') and (lo, hi) == (65279, 65280)
         run.disagree(Disagreement({'unicode_version': v, 'codepoints': [lo, hi]}, impl='in two blocks',
